@@ -217,6 +217,7 @@ def run(rep, tier):
             rep.count("model_result_paths_per_input", k, v)
         if res["flags"].get("crashed"):
             rep.count("halmos_crash", res["flags"]["crashed"][:80])
+            rep.fail("broken-tie", f"SEVM.run raised on call tree {json.dumps(tree)[:200]} where the call model reports results: {res['flags']['crashed'][:300]}", case=case)
         n_eval += res["evaluated"]
         n_model += res["evaluated"]
         rep.case({"tree": tree if len(json.dumps(tree)) < 600 else json.dumps(tree)[:600] + "...", "static": static, "paths": res["n_paths"], "inputs": res["n_inputs"]},
